@@ -46,10 +46,10 @@ type cliOp struct {
 
 type msSc struct {
 	Clients     [][]cliOp `json:"clients"`
-	Disconnects [][2]int  `json:"disconnects"` // (peer, at ms)
-	FailStreams []int     `json:"fail_streams"` // global indices of NewStream calls that fail
-	DialMs      []int     `json:"dial_ms,omitempty"`   // latency of the i-th NewStream call (cyclic)
-	PickupMs    []int     `json:"pickup_ms,omitempty"` // how long the remote waits before reading its n-th message on a stream (cyclic over stream*4+n)
+	Disconnects [][2]int  `json:"disconnects"`           // (peer, at ms)
+	FailStreams []int     `json:"fail_streams"`          // global indices of NewStream calls that fail
+	DialMs      []int     `json:"dial_ms,omitempty"`     // latency of the i-th NewStream call (cyclic)
+	PickupMs    []int     `json:"pickup_ms,omitempty"`   // how long the remote waits before reading its n-th message on a stream (cyclic over stream*4+n)
 	SyncWrites  bool      `json:"sync_writes,omitempty"` // client writes block until the remote has read them (exhausted send window)
 	YieldMs     []int     `json:"yield_ms,omitempty"`    // virtual pause at the n-th yield point reached in the sender bookkeeping (cyclic; build-tag hook)
 }
@@ -78,13 +78,13 @@ type srvEvent struct {
 }
 
 type opResult struct {
-	ID       string
-	Op       cliOp
-	Start    time.Duration
-	End      time.Duration
-	Err      error
-	RespKey  string
-	Resp     bool
+	ID      string
+	Op      cliOp
+	Start   time.Duration
+	End     time.Duration
+	Err     error
+	RespKey string
+	Resp    bool
 }
 
 func frameOf(m *pb.Message) []byte {
